@@ -369,6 +369,16 @@ def _equivalence(v, ctx):
             variants.append(di.Vector(a))
     except Exception:
         pass
+    try:
+        # neighbours in another numeric dtype that differ only by what a cast to v's dtype would discard
+        if v.is_integer() and len(v) and np.abs(np.asarray(v, dtype=np.float64)).max() < 2**52:
+            variants.append(di.Vector(np.asarray(v).astype(np.float64) + 0.5))
+        elif v.is_float() and len(v) and v.dtype == np.float64:
+            variants.append(di.Vector(np.asarray(v).astype(np.float32)))
+        elif v.is_float() and len(v) and v.dtype == np.float32:
+            variants.append(di.Vector(np.asarray(v).astype(np.float64) + 1e-9))
+    except Exception:
+        pass
     if len(v):
         w = v.copy()
         try:
